@@ -51,18 +51,24 @@ pub struct ClusterDomain {
     nodes: Vec<NodeRt>,
     ops: Vec<(usize, Issued)>,
     fake: Option<(Server, SocketAddr)>,
+    /// real task distributor services (C16, consumer side), one per node that started one
+    dists: Vec<Option<verif::Distributor>>,
     /// nodes whose address currently refuses connections (crashed, still listed in the membership)
     down: Vec<usize>,
 }
 
 impl ClusterDomain {
     pub fn new(_params: &[&str]) -> Self {
-        Self { nodes: Vec::new(), ops: Vec::new(), fake: None, down: Vec::new() }
+        Self { nodes: Vec::new(), ops: Vec::new(), fake: None, dists: Vec::new(), down: Vec::new() }
     }
 }
 
 impl Drop for ClusterDomain {
     fn drop(&mut self) {
+        datacake_crdt::verif_clock::set_wall_ms(None);
+        for d in self.dists.drain(..).flatten() {
+            d.kill();
+        }
         for n in self.nodes.drain(..) {
             n._server.shutdown();
         }
@@ -178,8 +184,67 @@ impl Domain for ClusterDomain {
         let rt = runtime();
         let u = |i: usize| p_u64(t[i]) as usize;
         match t[0] {
+            "advance" => {
+                // advance <ms>: the wall clock of every node jumps forward (injected, then constant: the hybrid clocks keep
+                // stamps strictly increasing through their counters); hour-scale histories run instantly
+                let cur = HLCTimestamp::now(0, 0).datacake_timestamp().as_millis() as u64;
+                datacake_crdt::verif_clock::set_wall_ms(Some(cur + p_u64(t[1])));
+                "ok".into()
+            },
+            // ---- C16, consumer side: the real task distributor fed with membership changes
+            "dist-start" => {
+                let i = u(1);
+                let n = &self.nodes[i];
+                let d = rt.block_on(verif::start_distributor::<Store>(n.clock.clone(), n.network.clone(), n.id, n.addr));
+                while self.dists.len() <= i {
+                    self.dists.push(None);
+                }
+                self.dists[i] = Some(d);
+                "ok".into()
+            },
+            "dist-change" => {
+                // dist-change <i> <left> <joined>: lists of `<member id>@<node index>` (the node's RPC address), or `-`
+                let parse = |x: &str| -> Vec<datacake_node::ClusterMember> {
+                    if x == "-" {
+                        return vec![];
+                    }
+                    x.split(',')
+                        .map(|m| {
+                            let (id, idx) = m.split_once('@').expect("member");
+                            datacake_node::ClusterMember::new(p_u64(id) as u8, self.nodes[p_u64(idx) as usize].addr, "dc".to_string())
+                        })
+                        .collect()
+                };
+                let change = datacake_node::MembershipChange { left: parse(t[2]), joined: parse(t[3]) };
+                self.dists[u(1)].as_ref().expect("dist").membership_change(change);
+                "ok".into()
+            },
+            "dist-put" => {
+                // dist-put <i> <doc id> <data>: a Consistency::None write of node i handed to its distributor; after the next
+                // batching tick, which nodes hold it?
+                let (i, id) = (u(1), p_u64(t[2]));
+                let n = &self.nodes[i];
+                let ts = rt.block_on(n.clock.get_time());
+                let doc = Document::new(id, ts, gen_data(t[3]));
+                self.dists[i].as_ref().expect("dist").put(KS, doc.clone());
+                rt.block_on(async { tokio::time::sleep(Duration::from_millis(1250)).await });
+                let mut got = Vec::new();
+                for (j, nj) in self.nodes.iter().enumerate() {
+                    if let Ok(Some(d)) = rt.block_on(nj.group.storage().get(KS, id)) {
+                        if d.last_updated() == ts {
+                            got.push(j.to_string());
+                        }
+                    }
+                }
+                self.ops.push((i, Issued::Put(doc)));
+                format!("recv {} ts={}", if got.is_empty() { "-".to_string() } else { got.join(",") }, ts.as_u64())
+            },
             "nodes" => {
                 let n = u(1);
+                for d in self.dists.drain(..).flatten() {
+                    d.kill();
+                }
+                datacake_crdt::verif_clock::set_wall_ms(None);
                 let nodes = rt.block_on(async {
                     let mut v = Vec::new();
                     for i in 0..n {
